@@ -286,6 +286,11 @@ def gen_cases(rng, budget):
                 mode = "F"          # the filling constructor: order 0..n-1, results of insert dropped
                 order = list(range(len(pts)))
             cases.append(mk_case(kind, root, pts, order, mode=mode, rng=rng))
+            if mode == "E" and r < 0.25 and len(pts) >= 3:
+                # the same points in another order: the real trees must agree (order_independent_tree)
+                twin = list(order)
+                rng.shuffle(twin)
+                cases.append(dict(cases[-1], order=twin, kind=kind))
     for _ in range(budget["outside"]):
         root = rng.choice(ROOTS)
         x0, x1, y0, y1, x, y, hw, hh = root_box(root)
@@ -676,6 +681,45 @@ class FloatTree:
         n.size = 0
         n.leaf = False
 
+    def forces(self, qi, theta):
+        """computeNonEdgeForces(qi, theta, {0,0}, 0) in doubles; also the smallest relative distance of a summary
+        decision from its threshold (a refactoring that changes rounding may flip decisions closer than ~1e-12)"""
+        p = self.P[qi]
+        acc = [0.0, 0.0, 0.0]
+        margin = [float("inf")]
+
+        def rec(n):
+            if n.cum == 0 or (n.leaf and n.size == 1 and n.index == qi):
+                return
+            b0 = p[0] - n.com[0]
+            b1 = p[1] - n.com[1]
+            D = 0.0
+            D += b0 * b0
+            D += b1 * b1
+            if n.leaf:
+                use = True
+            else:
+                mm = max(n.hh, n.hw)
+                sd = math.sqrt(D)
+                if sd == 0.0:
+                    use = False            # +inf or NaN < theta is false
+                else:
+                    ratio = mm / sd
+                    use = ratio < theta
+                    if theta > 0:
+                        margin[0] = min(margin[0], abs(ratio - theta) / theta)
+            if use:
+                Q = 1.0 / (1.0 + D)
+                acc[2] += n.cum * Q
+                mult = n.cum * Q * Q
+                acc[0] += mult * b0
+                acc[1] += mult * b1
+            else:
+                for k in n.kids:
+                    rec(k)
+        rec(self.root)
+        return (acc[0], acc[1], acc[2]), margin[0]
+
     def dump(self):
         out = []
 
@@ -737,7 +781,9 @@ def check_impl_alone(ctx, c, d, pts, stats, report):
                 except (RecursionError, IndexError, ValueError):
                     state["crack"] = False
             if state["crack"]:
-                stats["f25_cracks"] += 1
+                if "counted" not in state:
+                    state["counted"] = True
+                    stats["f25_cracks"] += 1
                 return plain("binary64 rounding crack (cell accepts a point that none of its four children accepts; "
                              "x -/+ .5*hw rounds): " + why, F25)
             return plain(why, signature)
@@ -981,7 +1027,13 @@ def evaluate(ctx, exe, mexe, cases, stats, with_model=True, record=True):
                     report("cell %d (cum_size %d): center_of_mass (%r, %r) is not the mean (%s, %s) of its points"
                            % (ci, cum, cell[9], cell[10], float(ex0), float(ex1)))
                     break
+    check_order_independence(cases, impls, fails, ptsF, stats, mk_report)
     if with_model:
+        for k, c in enumerate(cases):
+            if impls[k] is not None:
+                diff = check_float_replay(ctx, c, impls[k], stats)
+                if diff:
+                    ctx.mismatch(c, "binary64 replay: " + diff)
         check_auto_roots(ctx, mexe, cases, impls, stats)
         ex_cases = [k for k, c in enumerate(cases) if not c["kind"].startswith("tol") and k not in skipped]
         models = run_model(ctx, mexe, [cases[k] for k in ex_cases])
@@ -1007,6 +1059,89 @@ def evaluate(ctx, exe, mexe, cases, stats, with_model=True, record=True):
             if why:
                 ctx.violation(cases[k], why, signature=sigs[k])
     return list(zip(fails, sigs))
+
+
+def check_float_replay(ctx, c, d, stats):
+    """both streams: the real tree and the real force sums against the shipped algorithm replayed in Python doubles
+    (class FloatTree): cells, boxes, size, index, count, cum_size exactly; centre of mass and sums up to a few ulps
+    (a refactoring may reassociate); decisions closer than 1e-9 to their threshold are not compared.  On arbitrary
+    doubles this is the only reference there is; on dyadic inputs the same dump is also compared with the extracted
+    Coq model, which ties the replay to the model."""
+    import sys
+    sys.setrecursionlimit(max(sys.getrecursionlimit(), 20000))
+    P = [(float(fr(a)), float(fr(b))) for a, b in c["pts"]]
+    cells = d["cells"]
+    x, y, hw, hh = cells[0][1:5]
+    t = FloatTree(P, x, y, hw, hh)
+    try:
+        res = [1 if t.insert(t.root, i) else 0 for i in c["order"]]
+    except RecursionError:
+        return None
+    stats["float_replays"] += 1
+    if c["mode"] == "E" and res != d["R"]:
+        return "insert() results %s, binary64 replay of the shipped algorithm gives %s" % (d["R"], res)
+    mine = t.dump()
+    if len(mine) != len(cells):
+        return "%d cells, binary64 replay gives %d" % (len(cells), len(mine))
+    for ci, (a, b) in enumerate(zip(mine, cells)):
+        if a[:7] != b[:7] or a[8] != b[8] or (b[7] != -1 and a[7] != b[7]):
+            return "cell %d is %r, binary64 replay gives %r" % (ci, b, a)
+        tol = 8 * (a[8] + 2) * 2.0 ** -52 * max(abs(a[1]) + a[3], abs(a[2]) + a[4])
+        if abs(a[9] - b[9]) > tol or abs(a[10] - b[10]) > tol:
+            return "cell %d centre of mass %r, binary64 replay gives %r" % (ci, b[9:11], a[9:11])
+    for ti, ths in enumerate(c["thetas"]):
+        th = float(fr(ths))
+        for qi in c["queries"]:
+            f = d["F"].get((ti, qi))
+            if f is None:
+                continue
+            e, margin = t.forces(qi, th)
+            if margin < 1e-9:
+                stats["float_replay_near_tie"] += 1
+                continue
+            stats["float_replay_forces"] += 1
+            if not close3(f, e, 1e-11 * abs(e[2]) + 1e-300):
+                return "computeNonEdgeForces(query %d, theta %s) = %r, binary64 replay gives %r" % (qi, ths, f, e)
+    return None
+
+
+def check_order_independence(cases, impls, fails, ptsF, stats, mk_report):
+    """Properties_C18.order_independent_tree on the REAL trees: cases that insert the same index multiset into the
+    same root box must give the same cells, cum_size, count[0], a coincident stored index, and centres of mass equal
+    up to the rounding bound"""
+    groups = {}
+    for k, c in enumerate(cases):
+        if c["kind"].startswith("tol") or c["mode"] != "E" or impls[k] is None or fails[k] is not None:
+            continue
+        if len(set(impls[k]["R"])) > 1 or (impls[k]["R"] and impls[k]["R"][0] != 1):
+            continue
+        key = (tuple(c["root"]), tuple(map(tuple, c["pts"])), tuple(sorted(c["order"])))
+        groups.setdefault(key, []).append(k)
+    for key, ks in groups.items():
+        if len(ks) < 2:
+            continue
+        stats["order_groups"] += 1
+        k0 = ks[0]
+        a = impls[k0]["cells"]
+        P = ptsF[k0]
+        for k in ks[1:]:
+            stats["order_pairs"] += 1
+            b = impls[k]["cells"]
+            why = None
+            if len(a) != len(b):
+                why = "%d cells vs %d cells" % (len(a), len(b))
+            else:
+                for ci, (u, v) in enumerate(zip(a, b)):
+                    if u[:6] != v[:6] or u[8] != v[8] or (u[5] > 0 and (u[7] != v[7] or P[u[6]] != P[v[6]])):
+                        why = "cell %d differs: %r vs %r" % (ci, u, v)
+                        break
+                    bnd = com_bound(u, u[8]) * 2
+                    if abs(Fraction(u[9]) - Fraction(v[9])) > bnd or abs(Fraction(u[10]) - Fraction(v[10])) > bnd:
+                        why = "cell %d centre of mass differs: %r vs %r" % (ci, u[9:11], v[9:11])
+                        break
+            if why:
+                mk_report(k)("the tree depends on the insertion order (order %s vs order %s of the same points): %s"
+                             % (cases[k0]["order"], cases[k]["order"], why))
 
 
 def check_auto_roots(ctx, mexe, cases, impls, stats):
@@ -1087,6 +1222,15 @@ def compare(c, d, m, pts, stats):
         bnd = com_bound(b, cum) if cum > 1 else 0
         if abs(Fraction(a[9]) - b[8]) > bnd or abs(Fraction(a[10]) - b[9]) > bnd:
             return "cell %d center_of_mass (%r, %r) vs model (%s, %s)" % (ci, a[9], a[10], float(b[8]), float(b[9]))
+    stats["cells_compared"] += len(m["cells"])
+    stats["max_depth"] = max(stats["max_depth"], m["depth"] or 0)
+    stats["internal_cells"] += sum(1 for b in m["cells"] if b[0] == "N")
+    stats["leaves_with_absorbed_duplicates"] += sum(1 for b in m["cells"] if b[0] == "L" and b[6] >= 2)
+    if len(m["cells"]) > 1 and any(b[0] == "L" and b[6] >= 2 for b in m["cells"]):
+        stats["cases_split_tree_with_duplicates"] += 1
+    rx, ry = m["cells"][0][1], m["cells"][0][2]
+    if any(pts[i][0] == rx or pts[i][1] == ry for i in c["order"]):
+        stats["cases_point_on_root_split_line"] += 1
     if d["ok"] != m["ok"]:
         return "isCorrect %d vs model %d" % (d["ok"], m["ok"])
     if d["ai"] != m["ai"]:
@@ -1133,7 +1277,10 @@ def shrink(ctx, exe, mexe, case, stats, sig=None, steps=60):
 
 def new_stats():
     return {"allpairs": 0, "spec_runs": 0, "force_evals": 0, "force_compared": 0, "force_skipped_nonrobust": 0,
-            "force_full": 0, "exact_ties": 0, "f25_cracks": 0, "auto_roots": 0, "bound_checks": 0}
+            "force_full": 0, "exact_ties": 0, "f25_cracks": 0, "auto_roots": 0, "bound_checks": 0, "cells_compared": 0, "max_depth": 0,
+            "internal_cells": 0, "leaves_with_absorbed_duplicates": 0, "cases_split_tree_with_duplicates": 0,
+            "cases_point_on_root_split_line": 0, "order_groups": 0, "order_pairs": 0, "float_replays": 0, "float_replay_forces": 0,
+            "float_replay_near_tie": 0}
 
 
 def run_batch(ctx, exe, mexe, cases, stats, with_model=True):
@@ -1160,8 +1307,8 @@ def run_batch(ctx, exe, mexe, cases, stats, with_model=True):
 
 def budgets(ctx):
     if ctx.quick:
-        return ({"generic": 60, "clustered": 50, "collinear": 50, "coincident": 60, "edges": 60, "ranges": 50,
-                 "outside": 15, "tie": 40}, [4, 5], 40)
+        return ({"generic": 80, "clustered": 60, "collinear": 60, "coincident": 80, "edges": 80, "ranges": 50,
+                 "outside": 20, "tie": 50}, [4, 5], 40)
     return ({"generic": 500, "clustered": 400, "collinear": 400, "coincident": 500, "edges": 500, "ranges": 400,
              "outside": 100, "tie": 300}, [3, 4, 5, 6, 6], 400)
 
